@@ -556,6 +556,23 @@ func runOutsideQueueTasks(c *eng.Ctx, r11 *eng.RuleCtx) {
 		}
 		r11.Check(okAll && n > 0, f.Key+" filtered queue", f.Decl.Pos(), "the merged tasks are removed from the task's own queue", "the merged tasks are removed from another queue than the one the head task belongs to")
 	}
+	// a new task has no queue name until a producer gives it one
+	if nt, _ := p.Object(pkgTask, "NewTask").(*types.Func); nt != nil {
+		if f := p.FuncOf(nt); f != nil && f.Decl.Body != nil {
+			c.Touch(f)
+			qn := p.Field(pkgTask, "BaseTask", "QueueName")
+			stores := storesOfField(f.Pkg.TypesInfo, f.Decl.Body, qn)
+			pos := f.Decl.Pos()
+			bad := false
+			for _, st := range stores {
+				if v, isC := eng.ConstStr(f.Pkg.TypesInfo, st.Val); !isC || v != "" {
+					bad = true
+					pos = st.Val.Pos()
+				}
+			}
+			r11.Check(!bad, f.Key+" no default queue name", pos, "NewTask leaves QueueName empty", "NewTask gives every task a queue name by default: the tasks that answer webhook requests, which are never queued, are then combined with the tasks of that queue")
+		}
+	}
 	// webhook handlers: the task they build has no queue name
 	withQN = p.Method(pkgTask, "BaseTask", "WithQueueName")
 	for _, key := range []string{pkgOp + ".(*ShellOperator).initValidatingWebhookManager", pkgOp + ".(*ShellOperator).conversionEventHandler"} {
